@@ -258,6 +258,16 @@ def check(spec, ctx):
     seq_b = list(match_geometries(tgt, src, time_buffer=tb, freq_buffer=fb))
     if lock_a != out or lock_b != seq_b:
         ctx.fail("two match_geometries results consumed in lock step differ from the same calls made one after the other", spec, [lock_a, lock_b], [out, seq_b], kind="interleaved")
+    # ... and so do two calls running in two threads: this call is suspended at lines inside the library while another thread
+    # matches the reversed lists the other way round (the schedule is owned by the harness, see vf.core.run_interleaved)
+    ctx.interleave(
+        spec,
+        "match_geometries",
+        lambda: list(match_geometries(src, tgt, time_buffer=tb, freq_buffer=fb)),
+        lambda: list(match_geometries(tgt[::-1], src[::-1], time_buffer=fb and tb * 2, freq_buffer=fb)),
+        every=6,
+        max_pauses=24,
+    )
     # omitted buffers mean the documented defaults (0.01 s, 100 Hz)
     if n * m <= 9:
         d1 = [(a, b, c) for a, b, c in match_geometries(src, tgt)]
